@@ -367,6 +367,8 @@ class Engine:
         for path, oldv in known.items():
             if any(fnmatch.fnmatchcase(path, pat) for pat in c.modifies):
                 continue
+            if '.$e' in path or path.endswith('$e'):
+                continue       # attributes of the arbitrary element of an abstract collection (re-chosen per iteration)
             if path not in s.heap:
                 continue       # never read nor written on this path
             newv = s.heap.get(path)
@@ -988,7 +990,12 @@ class Engine:
 
     def havoc_content(self, st, c, name):
         if isinstance(c, ArrC):
-            return ArrC(fresh(name, z3.ArraySort(I, R)), c.n, None if c.nans is None else fresh(name + '.nans', z3.ArraySort(I, Bo)))
+            nc = ArrC(fresh(name, z3.ArraySort(I, R)), c.n, None if c.nans is None else fresh(name + '.nans', z3.ArraySort(I, Bo)),
+                      kind=c.kind)
+            if c.kind == 'int':
+                k = fresh('k', I)
+                st.assume(z3.ForAll([k], z3.IsInt(nc.vals[k])))
+            return nc
         if isinstance(c, SeqC):
             n = fresh(name + '.len', I)
             st.assume(n >= 0)
@@ -1451,6 +1458,9 @@ class Engine:
 
     def store_sub(self, base, sl, value, st):
         sl = self.project(sl)
+        hk = self.c.calls.get('__store__')
+        if hk is not None:
+            hk(self, st, [base, sl, value], {}, None)
         if isinstance(base, tuple) and len(base) == 2 and base[0] == 'objdict':
             key = self.ev(sl, st)
             if isinstance(key, str):
@@ -1826,6 +1836,11 @@ class Engine:
             return Func(full) if (full in self.externals or full in self.c.calls) else Module(full)
         if isinstance(base, MaybeNone):
             return self.getattr(base.value, attr, st, node)
+        if isinstance(base, Ref) and isinstance(st.content(base), ArrC):
+            if attr == 'ndim':
+                return 1
+            if attr == 'size':
+                return st.content(base).n
         return Method(base, attr)
 
     # -- arithmetic
